@@ -34,34 +34,20 @@ theorem full_sb_payload_is_not_text :
 /-- the ascii specification keeps partial lines across reads by construction: it never sees the reads -/
 theorem ascii_spec_example : asciiLines ([104, 101, 108] ++ [108, 111, 10]) = [[104, 101, 108, 108, 111]] := by decide
 
-/-! ### open finding: complete type-ahead commands are discarded with an over-full buffer -/
+/-! ### closed finding C13-typeahead-discard (fix 57d7cb1): a burst of commands typed ahead is kept -/
 
 /-- 425 times "n" CR LF in one burst -/
 def burst : List Byte := (List.replicate 425 [110, 13, 10]).flatten
 def burstOps : List FOp := [.send burst, .read, .read, .read, .read, .extract, .extract]
 
-/-- the end-to-end clause without its side condition -/
-def telnet_lines_delivered_Full : Prop :=
-  ∀ ops f, fRun (fun _ => .ok) { s := S.init .telnet } ops = .ok f → f.lastNone = true → f.delivered = lines f.received
-
 set_option maxRecDepth 10000000 in
+/-- after four read events (the later ones are held back) and two extractions: the run is still `clean`, two commands
+    have been delivered, and delivered ++ pending ++ what is still in the socket accounts for all 425 commands -/
 theorem burst_check :
     (match fRun (fun _ => .ok) { s := S.init .telnet } burstOps with
-     | .ok f => f.lastNone && !f.clean && f.delivered == [[110]] && (lines f.received).length == 425
+     | .ok f => f.clean && f.delivered == [[110], [110]] &&
+                (f.delivered ++ cmdsOf [] (pend f.s) ++ lines f.s.sock).length == 425 && !f.s.sock.isEmpty
      | .error _ => false) = true := by
   decide
 
-theorem telnet_lines_delivered_Full_false : ¬ telnet_lines_delivered_Full := by
-  intro hF
-  have hb := burst_check
-  cases hr : fRun (fun _ => .ok) { s := S.init .telnet } burstOps with
-  | error e => rw [hr] at hb; cases hb
-  | ok f =>
-    rw [hr] at hb
-    simp only [Bool.and_eq_true, beq_iff_eq, Bool.not_eq_true'] at hb
-    obtain ⟨⟨⟨h1, _⟩, h3⟩, h4⟩ := hb
-    have := hF burstOps f hr h1
-    rw [h3] at this
-    rw [← this] at h4
-    simp at h4
 end NV.C13
